@@ -24,7 +24,9 @@ RULE = (
     "is not its own ancestor; tree.count == len(tree) == #reachable; node_ids unique and find_first(node_id) hits; "
     "iteration yields exactly the reachable set; nodes that left (removed, descendants, clear, filter) are not found "
     "by their former node_id. Non-trivial: >= 3 structure-changing ops succeeded and the tree had >= 5 nodes with a "
-    "clone group or equal-comparing siblings at some step; distinct = distinct case."
+    "clone group or equal-comparing siblings at some step; distinct = distinct case. Part deep-removal: clear / remove / "
+    "remove_children / un-nest on a branch of 650-800 levels (the unchanged code handles about 980) that follows a shallow "
+    "sibling branch: no RecursionError, tree well-formed, removed nodes detached, survivors as expected."
 )
 EXHAUSTIVE_NOTE = {"quick": "two-step histories (re-key/move, then remove x keep_children x with_clones) on all clone labelings over {a,b} of forests <= 3 nodes", "thorough": "the same for forests <= 4 nodes"}
 ASSUMPTIONS = [
@@ -103,7 +105,70 @@ def enum_cases(tier):
                                 yield {"spec": spec, "spec2": [], "typed": False, "ops": [f, ["remove", k, kc, wc]], "profile": "two-step"}
 
 
+def run_deep(case, rec):
+    """Removal of a deep branch (650-800 levels; the unchanged code handles about 980 with the default recursion
+    limit) that comes after a shallow sibling branch: afterwards the tree is well-formed, the removed nodes are
+    detached and the survivors are exactly the expected ones."""
+    from nutree import Tree
+
+    depth, op = case["depth"], case["op"]
+    tree = Tree("deep")
+    keep = tree.add("keep")
+    keep.add("k1")
+    host = tree.add("host")
+    shallow = host.add("shallow")
+    shallow.add("s1").add("s2")
+    chain = []
+    parent = host
+    for i in range(depth):
+        parent = parent.add(f"c{i}")
+        chain.append(parent)
+        if i % 50 == 0:
+            parent.add(f"leaf{i}")
+    before = len(tree)
+    rec.nt(True)
+    rec.cls(f"op={op}")
+    rec.evals += 1
+    try:
+        if op == "clear":
+            tree.clear()
+            gone, exp_count = [keep, host, shallow] + chain, 0
+        elif op == "remove":
+            host.remove()
+            gone, exp_count = [host, shallow] + chain, 2
+        elif op == "remove_children":
+            host.remove_children()
+            gone, exp_count = [shallow] + chain, 3
+        elif op == "remove_chain_top":
+            chain[0].remove()
+            gone, exp_count = chain, 6
+        else:  # un-nest the top of the deep chain
+            chain[0].remove(keep_children=True)
+            gone, exp_count = chain[:1], before - 1
+    except RecursionError as e:
+        rec.fail(f"deep:{op}:RecursionError", {"depth": depth, "exc": repr(e)[:80]})
+        return
+    problems, w = structural(tree)
+    if problems:
+        rec.fail(f"deep:{op}:{problems[0][0]}", problems[0][1])
+        return
+    if len(w.pre) != exp_count:
+        rec.fail(f"deep:{op}:survivors", {"reachable": len(w.pre), "expected": exp_count})
+    reach = {id(n) for n in w.pre}
+    for n in gone:
+        if id(n) in reach or n.tree is not None:
+            rec.fail(f"deep:{op}:removed-node-still-attached", repr(n)[:80])
+            break
+
+
+def deep_cases(tier):
+    for depth in ([700] if tier == "quick" else [650, 800]):
+        for op in ("clear", "remove", "remove_children", "remove_chain_top", "unnest"):
+            yield {"depth": depth, "op": op}
+
+
 PARTS = [
+    Part("deep-removal", run_deep, enum=deep_cases),
     Part("histories", run, strategy=hyp_cases, n={"quick": 1500, "thorough": 200000}),
     Part("two-step-clones", run, enum=enum_cases),
 ]
